@@ -17,10 +17,17 @@ def mut(id, prop, needs, *edits, also=None):
 
 # ------------------------------------------------------------------ C17
 mut("m17-revert-d1-scanner-cr", "C17", "a CR LF pair cut between two reads",
-    ("subtitles.go", """			if i+1 == len(data) && !atEOF {
-				return 0, nil, nil
-			}
+    ("subtitles.go", """				if !atEOF {
+					return 0, nil, nil
+				}
 """, ""))
+mut("m17-revert-d9-final-line-at-the-limit", "C17", "a final unterminated line of exactly 65536 bytes with the last bytes delivered together with io.EOF",
+    ("subtitles.go", """			// The scanner would have failed if the end of the stream had not
+			// been delivered along with those bytes
+			if len(data) >= bufio.MaxScanTokenSize {
+				return 0, nil, bufio.ErrTooLong
+			}
+			return len(data), data, nil""", """			return len(data), data, nil"""))
 mut("m17-revert-d2-stl-single-read", "C17", "an STL block delivered in two reads",
     ("stl.go", "if n, err = io.ReadFull(i, o); err != nil {", "if n, err = i.Read(o); err != nil || n != len(o) {\n\t\tif err == nil {\n\t\t\terr = io.ErrUnexpectedEOF\n\t\t}"), also=["C18"])
 mut("m17-revert-d4-teletext-raw-reader", "C17", "first read of a transport stream shorter than 193 bytes",
